@@ -1004,6 +1004,91 @@ def session_cases(ctx):
 # --------------------------------------------------------------------------------------------
 
 
+def run_cancel_case(case):
+    """Concurrent callers of a real served model, some of which go away (their RPC is cancelled)
+    while their request is queued or being evaluated.  Every caller that stays gets the local
+    evaluation of ITS OWN position.  Returns None or (key, what)."""
+    S = _impl()
+    np = S["np"]
+    model = _real_model(case.get("model_seed", 0), case.get("eval_mode", False), case.get("pe", "sin"))
+    lat = case.get("latency_us", 2500)
+    loop = VirtualTimeLoop(latency=lambda n: lat / 1e6)
+    asyncio.set_event_loop(loop)
+    try:
+        server = S["srv"].Server(model=model)
+        worker = loop.create_task(server.worker_loop())
+        poss = [ser.parse_pos(p.split(" ")) for p in case["positions"]]
+        toks = [[int(t) for t in S["encoding"].encode(p)] if "encoding" in S else None for p in poss]
+        from tak.model import encoding as _enc
+
+        toks = [[int(t) for t in _enc.encode(p)] for p in poss]
+        got = {}
+
+        async def client(i):
+            resp = await server.Evaluate(S["pb2"].EvaluateRequest(position=toks[i]), None)
+            got[i] = resp
+
+        tasks = {}
+        for i, t in enumerate(case["times_us"]):
+            loop.call_at(t / 1e6, lambda i=i: tasks.__setitem__(i, loop.create_task(client(i))))
+        for i, t in case["cancel_us"]:
+            loop.call_at(t / 1e6, lambda i=i: tasks[i].cancel() if i in tasks else None)
+        loop.run_until_idle()
+        gone = {i for i, _ in case["cancel_us"]}
+        bad = None
+        for i in range(len(poss)):
+            if i in gone:
+                continue
+            if i not in got:
+                exc = tasks[i].exception() if i in tasks and tasks[i].done() and not tasks[i].cancelled() else None
+                bad = ("unanswered", "caller %d (position [%s]) was never answered after callers %s went away%s" % (i, case["positions"][i], sorted(gone), " (%s)" % type(exc).__name__ if exc else ""))
+                break
+            lp, lv = S["wrapper"].ModelWrapper(model=model).evaluate(poss[i])
+            probs = np.frombuffer(got[i].move_probs_bytes, dtype=np.float32)
+            if not _close(probs, float(got[i].value), (lp.numpy(), float(lv))):
+                whose = [j for j in range(len(poss)) if j != i and _close(probs, float(got[i].value), tuple((x.numpy() if hasattr(x, "numpy") else float(x)) for x in S["wrapper"].ModelWrapper(model=model).evaluate(poss[j])))]
+                bad = ("wrong-position", "caller %d (position [%s]) received %s after callers %s went away" % (
+                    i, case["positions"][i], ("the evaluation of caller %d's position" % whose[0]) if whose else "an evaluation that is not its position's", sorted(gone)))
+                break
+        for t in list(asyncio.all_tasks(loop)):
+            t.cancel()
+        loop.run_until_idle()
+        return bad
+    finally:
+        asyncio.set_event_loop(None)
+        loop.close()
+
+
+def cancel_cases(ctx):
+    rng = ctx.rng
+    pool = _state.get("positions") or []
+    vios, divs = [], []
+    if not pool:
+        return [], vios
+    for k in range(40 if ctx.thorough else 10):
+        n = rng.choice([3, 4, 6, 9, 12])
+        lat = rng.choice([2500, 10000])
+        times = [0] * n if rng.random() < 0.6 else sorted(rng.choice([0, 0, 300, 700]) for _ in range(n))
+        who = rng.sample(range(n), rng.choice([1, 1, 2]))
+        # while queued / being gathered (before 1 ms), or while the model runs
+        cancel = [[i, rng.choice([200, 500, 900, 1500, lat // 2 + 1000])] for i in who]
+        case = {"positions": [rng.choice(pool) for _ in range(n)], "times_us": times, "cancel_us": cancel, "latency_us": lat,
+                "model_seed": k % 3, "eval_mode": bool(k % 2), "pe": ["sin", "learned", "none"][k % 3]}
+        try:
+            bad = run_cancel_case(case)
+        except Exception as e:
+            bad = ("unanswered", "the run with departing callers raised %s: %s" % (type(e).__name__, str(e)[:120]))
+        ctx.evaluated()
+        ctx.count("callers-going-away")
+        if bad:
+            d = Divergence("corr.server.cancel", {"cancel_case": case}, bad[1], "every caller that stays receives ModelWrapper.evaluate of its own position within 1e-5")
+            d.explained = True
+            divs.append(d)
+            if not any(v.key == bad[0] for v in vios):
+                vios.append(Violation(bad[0], bad[1], {"cancel_case": case}))
+    return divs, vios
+
+
 def _canon(sched):
     return json.dumps(sched, sort_keys=True, separators=(",", ":"))
 
@@ -1071,7 +1156,8 @@ def tie(ctx):
     divs += codec_cases(ctx)
     cdivs, cvios = client_cases(ctx)
     sdivs, svios = session_cases(ctx)
-    cdivs, cvios = cdivs + sdivs, cvios + svios
+    xdivs, xvios = cancel_cases(ctx)
+    cdivs, cvios = cdivs + sdivs + xdivs, cvios + svios + xvios
     _state["client_violations"] = cvios
     divs += cdivs
     return divs
@@ -1234,6 +1320,9 @@ def replay(ctx, data):
         obs = run_schedule(sched)
         verdict = _judge(obs)
         return [_violation_of(sched, obs, verdict)] if verdict else []
+    if "cancel_case" in r:
+        bad = run_cancel_case(r["cancel_case"])
+        return [Violation(bad[0], bad[1], r)] if bad else []
     if "session" in r:
         res, _ = run_session(r["session"])
         return [_session_violation(r["session"], res)] if res else []
